@@ -32,8 +32,9 @@ Example chan_futex_reload_loses_wakeup :
   f_wcur s <> ridx (f_rcur s + 1) (f_cap s) /\               (* the channel is NOT empty *)
   (forall t, (t < 2)%nat -> fstep_reload s t 0 = None).      (* and nobody can ever run again *)
 Proof.
-  vm_compute. repeat split; try reflexivity; try discriminate;
-    intros [|[|u]] H; try reflexivity; lia.
+  cbv zeta. repeat split;
+    try (intros [|[|u]] H; [vm_compute; reflexivity|vm_compute; reflexivity|lia]);
+    vm_compute; try reflexivity; discriminate.
 Qed.
 Example chan_futex_reload_breaks_invariant :
   ~ FInv (exec fsys fstep_reload (finit 2 4 false 1 (fun _ => 1%nat)) f_lost_sched).
@@ -60,8 +61,9 @@ Example ring_reload_loses_wakeup :
   (forall u, (u < 2)%nat -> g_pending (g_pc (g_thr s u)) = false) /\
   (forall t, (t < 2)%nat -> gstep_reload s t 0 = None).
 Proof.
-  vm_compute. repeat split; try reflexivity; try discriminate;
-    intros [|[|u]] H; try reflexivity; lia.
+  cbv zeta. repeat split;
+    try (intros [|[|u]] H; [vm_compute; reflexivity|vm_compute; reflexivity|lia]);
+    vm_compute; try reflexivity; discriminate.
 Qed.
 
 (* ------------------------------------------------------------------ *)
@@ -180,6 +182,8 @@ Example synclock_wake_before_store_deadlocks :
   l_pc (l_thr s 1%nat) = LBlocked /\ l_lock s = 0 /\ l_pc (l_thr s 0%nat) = LDone /\
   (forall t, (t < 2)%nat -> lstep_wake_first any_params s t 0 = None).
 Proof.
-  vm_compute. repeat split; try reflexivity. intros [|[|u]] H; try reflexivity; lia.
+  cbv zeta. repeat split;
+    try (intros [|[|u]] H; [vm_compute; reflexivity|vm_compute; reflexivity|lia]);
+    vm_compute; reflexivity.
 Qed.
 End SyncVariant.
